@@ -63,7 +63,7 @@ pub trait CaseEngine: Sync {
     /// CPU seconds (not wall-clock: load independent) a case may burn without emitting a progress line before it
     /// is killed as spinning; engines emit a progress line per operation, and an operation takes milliseconds
     fn hang_cpu_seconds(&self) -> f64 {
-        90.0
+        300.0
     }
 }
 
